@@ -1,8 +1,6 @@
-(* pins/C03.v — compiled on every check: the statements are pinned (a weakened theorem no longer
-   type-checks against them) and the assumptions of each are printed. *)
 From RsdnsModel Require Import Base Cursor Names Labels.
 From RsdnsModel.Spec Require Import WireName.
-From RsdnsModel.Proofs Require Import CursorSafe LabelsTotal LabelsSound.
+From RsdnsModel.Proofs Require Import CursorSafe LabelsTotal LabelsSound LabelsComplete.
 From RsdnsModel.Properties Require Import C03.
 Open Scope N_scope.
 Check (C03_read_sound : forall msg nk c t c',
@@ -23,8 +21,13 @@ Check (C03_reject : forall msg nk c,
   ~ (exists ls, expands (vis msg c) None 0 (pos c) ls /\
                 Forall (fun l => label_ok (snd l) = true) ls /\ wire_len (map snd ls) <= 255) ->
   exists e, read_name msg nk c = Err e).
-Print Assumptions C03_read_sound.
-Print Assumptions C03_skip_sound.
-Print Assumptions C03_read_total.
-Print Assumptions C03_skip_total.
-Print Assumptions C03_reject.
+Check (C03_read_complete : forall msg nk c ls,
+  cwf msg c -> expands (vis msg c) None 0 (pos c) ls ->
+  Forall (fun l => label_ok (snd l) = true) ls -> wire_len (map snd ls) <= 255 ->
+  exists c', read_name msg nk c = Ok (join_labels (map snd ls), c') /\
+    resume_at (vis msg c) (pos c) (pos c') /\ lim c' = lim c /\ orig c' = orig c).
+Check (C03_skip_complete : forall msg c ls,
+  cwf msg c -> expands (vis msg c) None 0 (pos c) ls ->
+  Forall (fun l => label_ok (snd l) = true) ls -> wire_len (map snd ls) <= 255 ->
+  exists c', skip_name msg c = Ok c' /\ resume_at (vis msg c) (pos c) (pos c')).
+Print Assumptions C03_read_sound. Print Assumptions C03_skip_sound. Print Assumptions C03_read_total. Print Assumptions C03_skip_total. Print Assumptions C03_reject. Print Assumptions C03_read_complete. Print Assumptions C03_skip_complete.
